@@ -22,8 +22,17 @@
 import PgModel.KeyPath
 namespace Pg.C10
 
+/-- Leaves. `missing` is a `pg.MISSING_VALUE` placeholder (a plain `MISSING_VALUE` stored in a dict /
+list, or the unbound field of a partial `pg.Object`): a node that *exists* and holds "no value yet".
+`bool` are `True` / `False` (falsy-but-present leaves such as `False`, `0`, `''`, `None`, `[]`, `{}`
+are ordinary nodes).
+
+`canonicalize` is modelled for values *without* `missing` leaves only: the code treats a missing
+value as "absent" there (`merge_tree` overwrites it, `transform` deletes it), which this model does
+not mirror; `canonical` therefore excludes `missing` leaves and the harness never sends them to
+flatten / canonicalize. Traversal, lookup, `exists`, `pg.query` and `flatten` treat it as a leaf. -/
 inductive Atom where
-  | none | int (z : Int) | str (s : List Char)
+  | none | int (z : Int) | str (s : List Char) | missing | bool (b : Bool)
   deriving DecidableEq, Repr
 
 inductive Val where
@@ -124,6 +133,22 @@ def query : Val → Path → Except Err Val
       else .error .key
     | .s t => if isInfix t s then .error .type else .error .key
   | .leaf _, _ :: _ => .error .key
+
+/-- `KeyPath.exists` (value_location.py: `try: self.query(src); return True; except KeyError: return
+False`): only KeyError is caught — a present node holding a missing-value placeholder or any falsy
+value exists. -/
+def existsM (v : Val) (p : Path) : Except Err Bool :=
+  match query v p with
+  | .ok _ => .ok true
+  | .error .key => .ok false
+  | .error e => .error e
+
+/-- `KeyPath.get(src, default)`: `none` stands for the default. -/
+def getM (v : Val) (p : Path) : Except Err (Option Val) :=
+  match query v p with
+  | .ok r => .ok (some r)
+  | .error .key => .ok none
+  | .error e => .error e
 
 def isLeaf : Val → Bool
   | .leaf _ => true
